@@ -52,11 +52,17 @@ def totals():
     res = json.load(open(rp)) if os.path.exists(rp) else {}
     seeds = [d for d in os.listdir(os.path.join(V, "seeded")) if os.path.exists(os.path.join(V, "seeded", d, "patch.diff"))]
     det = [d for d in seeds if any(isinstance(x, dict) and x.get("detected") for x in res.get(d, {}).values())]
+    conc = [d for d in det if any(isinstance(x, dict) and x.get("detected") and x.get("with_failing_input") for x in res.get(d, {}).values())]
+    bd = os.path.join(V, "benign")
+    ben = [d for d in os.listdir(bd) if os.path.exists(os.path.join(bd, d, "patch.diff"))] if os.path.isdir(bd) else []
+    bres = json.load(open(os.path.join(bd, "RESULTS.json"))) if os.path.exists(os.path.join(bd, "RESULTS.json")) else {}
+    bq = [d for d in ben if bres.get(d) and all(isinstance(x, dict) and x.get("quiet") for x in bres[d].values())]
     return ("Totals: %d properties claimed, %d theorems in `coq/Props` (all closed under the global context; `coqchk`: no axioms), %d lines of Coq "
             "(models, proofs, statements), %d lines of Go harness injected by overlay, %d lines of source-to-Coq translators; %d defects repaired "
             "in /repo by `fix:` commits, %d findings carried; %d independently written seeded changes filed, %d of them reported by the check "
-            "of their property (or of the property whose anchor they touch) with a concrete input." % (
-                len(PROPS), nt, nl, ng, ngen, sum(len(v) for v in fix.values()), sum(len(v) for v in fnd.values()), len(seeds), len(det)))
+            "of their property (or of the property whose anchor they touch), %d of those with a concrete failing input or offending table entry (the others as a "
+            "broken translation or correspondence, `no-failing-input-found`); %d behaviour-preserving rewrites filed, the check of their property silent on %d." % (
+                len(PROPS), nt, nl, ng, ngen, sum(len(v) for v in fix.values()), sum(len(v) for v in fnd.values()), len(seeds), len(det), len(conc), len(ben), len(bq)))
 
 
 def sec91():
